@@ -71,9 +71,21 @@ func c05aTable(seed uint64) (out c05aOutcome) {
 	}
 	s.Drain()
 	now := s.Now()
-	if sig, msg := seatConsistency(now, pokertable.VerifSeatManager(s.TE)); sig != "" {
-		out.sig, out.msg = "C05.auto-seated-flags", fmt.Sprintf("after the engine seated the reserved players in: %s %s", sig, msg)
-		return
+	// the engine's sit-in (PlayerJoin from the auto-join group's goroutine, no engine lock) sets
+	// the table's flag first and tells the seat manager a moment later: sample until both agree,
+	// and only call a difference that is still there after a second a violation
+	for i := 0; ; i++ {
+		sig, msg := seatConsistency(now, pokertable.VerifSeatManager(s.TE))
+		if sig == "" {
+			break
+		}
+		if i >= 200 {
+			out.sig, out.msg = "C05.auto-seated-flags", fmt.Sprintf("a second after the engine seated the reserved players in: %s %s", sig, msg)
+			return
+		}
+		time.Sleep(5 * time.Millisecond)
+		s.Drain()
+		now = s.Now()
 	}
 	want := []string{}
 	for _, p := range now.State.PlayerStates {
